@@ -304,3 +304,307 @@ Proof.
   destruct (close_session h2 x) as [h3 o3] eqn:H3. cbn [fst]. rewrite (fst_eq _ _ _ H3).
   eapply rel0_trans; [exact R2|apply rel0_close_session].
 Qed.
+
+Lemma rel0_join_room sid h c x k rs perms su : rel0 sid h (fst (join_room h c x k rs perms su)).
+Proof.
+  unfold join_room.
+  destruct (leave_room h x true) as [h1 o1] eqn:Hl. pose proof (fst_eq _ _ _ Hl) as E1.
+  assert (R1 : rel0 sid h h1) by (rewrite E1; apply rel0_leave_room).
+  destruct (get_sess h1 x) as [s|] eqn:Hs; [|exact R1].
+  set (r := match room_of h1 k with Some x0 => x0 | None => empty_room end).
+  set (r' := mkroom (nadd x (r_members r)) (r_incall r) (if N.eqb su 0 then r_sessdata r else aset (r_sessdata r) x su) (r_transient r) (r_props r)).
+  set (s1 := upd_sess s (Some k) rs (s_conn s) (match perms with Some p => Some p | None => s_perms s end) (s_pending s) [] (h_clock h1)).
+  set (h2 := set_clock (put_sess (set_rooms h1 (pset (h_rooms h1) k r')) x s1) (h_clock h1 + 1)).
+  assert (R2 : rel0 sid h h2).
+  { eapply rel0_trans; [exact R1|].
+    apply (rel0_aset sid h1 h2 x s s1); [reflexivity|reflexivity|exact Hs|now apply sessA_same]. }
+  set (h3 := if N.eqb rs 0 then h2 else rs_set h2 x rs).
+  assert (R3 : rel0 sid h h3).
+  { unfold h3. destruct (N.eqb rs 0); [exact R2|]. eapply rel0_trans; [exact R2|apply rel0_rs_set]. }
+  set (h4 := set_anonymous h3 (nrem x (h_anonymous h3))).
+  set (h5 := match s_kind s with KInternal _ true => set_dialout h4 (nrem x (h_dialout h4)) | _ => h4 end).
+  assert (R5 : rel0 sid h h5).
+  { eapply rel0_then_eq; [exact R3| |]; unfold h5; destruct (s_kind s) as [|f d|]; try destruct d; reflexivity. }
+  destruct (send_session h5 x (SRoom (snd k))) as [h7 o2] eqn:Hsend.
+  assert (R7 : rel0 sid h h7).
+  { rewrite (fst_eq _ _ _ Hsend). eapply rel0_trans; [exact R5|apply rel0_send_session]. }
+  destruct (room_of h7 k); [|exact R7].
+  set (h9 := if nmem x (r_members r) then h7 else publish h7 (SubjRoom (fst k) (snd k)) (ARoomEvent (SJoin [(x, if N.eqb (s_user s) 0 then su else s_user s)]))).
+  assert (R9 : rel0 sid h h9).
+  { unfold h9. destruct (nmem x (r_members r)); [exact R7|]. eapply rel0_trans; [exact R7|apply rel0_publish]. }
+  match goal with |- context [let '(h10, outs3) := ?X in _] => destruct X as [h10 o3] eqn:H10 end.
+  assert (R10 : rel0 sid h h10).
+  { destruct (nmem x (r_members r)); [injection H10 as <- <-; exact R9|].
+    destruct (r_transient r); [injection H10 as <- <-; exact R9|].
+    rewrite (fst_eq _ _ _ H10). eapply rel0_trans; [exact R9|apply rel0_send_session]. }
+  cbn [fst]. eapply rel0_trans; [exact R10|apply rel0_publish].
+Qed.
+
+Lemma rel0_do_join sid h c x s rn rs rep :
+  get_sess h x = Some s -> rel0 sid h (fst (do_join h c x s rn rs rep)).
+Proof.
+  intros Hs. unfold do_join. destruct (N.eqb rn 0).
+  - destruct (s_room s); [|apply rel0_refl].
+    destruct (leave_room h x true) as [h1 o1] eqn:Hl.
+    assert (R1 : rel0 sid h h1) by (rewrite (fst_eq _ _ _ Hl); apply rel0_leave_room).
+    destruct (send_session h1 x (SRoom 0)) as [h2 o2] eqn:H2.
+    assert (R2 : rel0 sid h h2).
+    { rewrite (fst_eq _ _ _ H2). eapply rel0_trans; [exact R1|apply rel0_send_session]. }
+    cbn [fst]. destruct (N.eqb (s_user s) 0 && negb (is_internal (s_kind s))); [|exact R2].
+    eapply rel0_then_eq; [exact R2|reflexivity|reflexivity].
+  - set (k := (s_backend s, rn)). set (rsv := if N.eqb rs 0 then 0 else 1000000 + rs).
+    destruct (match room_of h k with Some r => nmem x (r_members r) | None => false end).
+    + set (newrs := if N.eqb rs 0 then 2000000 + x else rsv).
+      set (h1 := if N.eqb (s_rs s) newrs then h else put_sess (rs_set h x newrs) x (sess_rs s newrs)).
+      assert (R1 : rel0 sid h h1).
+      { unfold h1. destruct (N.eqb (s_rs s) newrs); [apply rel0_refl|].
+        eapply rel0_trans; [apply (rel0_rs_set sid h x newrs)|].
+        apply rel0_put with s; [unfold get_sess; rewrite rs_set_sessions; exact Hs|now apply sessA_same]. }
+      destruct (send_session h1 x (SError E_already_joined)) as [h2 o2] eqn:H2. cbn [fst].
+      rewrite (fst_eq _ _ _ H2). eapply rel0_trans; [exact R1|apply rel0_send_session].
+    + destruct (is_internal (s_kind s)); [apply rel0_join_room|].
+      match goal with |- context [let '(h1, outs1) := ?X in _] => destruct X as [h1 o1] eqn:H1 end.
+      assert (R1 : rel0 sid h h1).
+      { destruct (N.eqb rs 0 || N.eqb (s_rs s) rsv); [injection H1 as <- <-; apply rel0_refl|].
+        rewrite (fst_eq _ _ _ H1). apply rel0_kick. }
+      destruct (get_sess h1 x); [|exact R1].
+      destruct rep as [perms su|code].
+      * destruct (join_room h1 c x k rsv perms su) as [h2 o2] eqn:H2. cbn [fst]. rewrite (fst_eq _ _ _ H2).
+        eapply rel0_trans; [exact R1|apply rel0_join_room].
+      * destruct (send_session h1 x (SError code)) as [h2 o2] eqn:H2. cbn [fst]. rewrite (fst_eq _ _ _ H2).
+        eapply rel0_trans; [exact R1|apply rel0_send_session].
+Qed.
+
+Lemma rel0_do_message sid h x s kindn to tag cb : rel0 sid h (fst (do_message h x s kindn to tag cb)).
+Proof.
+  unfold do_message.
+  destruct to as [i|u| |].
+  - destruct i as [n|n|k|n]; try (cbn [fst]; apply rel0_publish).
+    destruct (get_sess h n) as [t|]; [|cbn [fst]; apply rel0_publish].
+    destruct (cb && negb (N.eqb (s_backend t) (s_backend s))); [apply rel0_refl|].
+    destruct (N.eqb n x); [apply rel0_refl|].
+    destruct (s_kind t); apply rel0_send_session.
+  - destruct (N.eqb u 0); [apply rel0_refl|]. destruct (N.eqb u (sess_userid h x s)); [apply rel0_refl|].
+    cbn [fst]. apply rel0_publish.
+  - destruct (s_room s); [|apply rel0_refl]. cbn [fst]. apply rel0_publish.
+  - destruct (s_room s); [|apply rel0_refl]. cbn [fst]. apply rel0_publish.
+Qed.
+
+Lemma rel0_recv_event sid h x m sender co re t : rel0 sid h (fst (recv_event h x m sender co re t)).
+Proof.
+  unfold recv_event. destruct (get_sess h x) as [s|]; [|apply rel0_refl].
+  destruct (N.eqb sender x && negb (N.eqb sender 0)); [apply rel0_refl|].
+  destruct (co && negb (in_call h x s)); [apply rel0_refl|].
+  match goal with |- context [if ?c then _ else _] => destruct c end; [apply rel0_refl|]. apply rel0_send_session.
+Qed.
+
+Lemma rel0_delete_member sid hh m : rel0 sid hh (fst (delete_member hh m)).
+Proof.
+  unfold delete_member. destruct (get_sess hh m) as [s|]; [|apply rel0_refl].
+  destruct (leave_room hh m true) as [h2 o1] eqn:Hl.
+  assert (R2 : rel0 sid hh h2) by (rewrite (fst_eq _ _ _ Hl); apply rel0_leave_room).
+  destruct (is_virtual (s_kind s)); [exact R2|].
+  destruct (s_conn s); [|exact R2].
+  destruct (send_session h2 m (SRoom 0)) as [h3 o2] eqn:H3. cbn [fst]. rewrite (fst_eq _ _ _ H3).
+  eapply rel0_trans; [exact R2|apply rel0_send_session].
+Qed.
+
+Lemma rel0_room_request sid h k q : rel0 sid h (fst (room_request h k q)).
+Proof.
+  unfold room_request. destruct (room_of h k) as [r|]; [|apply rel0_refl].
+  destruct q as [|users rs|tag|l|l|ic|tag].
+  - (* delete *)
+    match goal with |- context [fold_sessions h ?int ?f] => set (internals := int); set (g := f) end.
+    destruct (fold_sessions h internals g) as [h0 o0] eqn:H0.
+    assert (R0 : rel0 sid h h0).
+    { rewrite (fst_eq _ _ _ H0). apply rel0_fold_sessions. intros hh y. apply rel0_send_session. }
+    set (h1 := set_rooms h0 (pdel (h_rooms h0) k)).
+    destruct (fold_sessions h1 (r_members r) delete_member) as [h9 o9] eqn:H9. cbn [fst].
+    rewrite (fst_eq _ _ _ H9). eapply rel0_trans; [exact R0|].
+    eapply rel0_trans; [apply (rel0_eq sid h0 h1); reflexivity|].
+    apply rel0_fold_sessions. intros hh y. apply rel0_delete_member.
+  - apply rel0_refl.
+  - destruct (N.eqb (r_props r) (tag + 1)); [apply rel0_refl|]. cbn [fst]. apply rel0_eq; reflexivity.
+  - cbn [fst]. apply rel0_publish.
+  - (* incall *)
+    match goal with |- context [fold_left ?f l (h, [])] => set (g := f) end.
+    assert (Hg : rel0 sid h (fst (fold_left g l (h, [])))).
+    { assert (G : forall acc, rel0 sid h (fst acc) -> rel0 sid h (fst (fold_left g l acc))).
+      { induction l as [|u l IH]; intros acc Hacc; cbn [fold_left]; [exact Hacc|]. apply IH.
+        destruct acc as [hh oo]. cbn [fst] in Hacc. unfold g. destruct u as [[i icv] pm].
+        destruct i as [n|y|kk|n]; try exact Hacc.
+        destruct (get_sess hh y); [|exact Hacc].
+        destruct (N.testbit icv 0); [cbn [fst]; eapply rel0_trans; [exact Hacc|apply rel0_set_incall]|].
+        destruct (leave_call (set_incall hh k y false) y) as [h2 o2] eqn:H2. cbn [fst].
+        rewrite (fst_eq _ _ _ H2). eapply rel0_trans; [exact Hacc|].
+        eapply rel0_trans; [apply rel0_set_incall|apply rel0_leave_call]. }
+      apply G. apply rel0_refl. }
+    destruct (fold_left g l (h, [])) as [h1 outs]. cbn [fst] in *. eapply rel0_trans; [exact Hg|apply rel0_publish].
+  - (* incall for everybody *)
+    destruct (N.testbit ic 0).
+    + match goal with |- context [filter ?f (filter ?g0 (r_members r))] => set (fresh := filter f (filter g0 (r_members r))); set (joiners := filter g0 (r_members r)) end.
+      destruct fresh; [apply rel0_refl|].
+      eapply rel0_trans; [|apply rel0_fold_sessions; intros hh y; apply rel0_send_session].
+      apply rel0_fold_left_hub. intros hh y. apply rel0_set_incall.
+    + destruct (r_incall r) eqn:Hic; [apply rel0_refl|].
+      set (h1 := set_rooms h (pset (h_rooms h) k (mkroom (r_members r) [] (r_sessdata r) (r_transient r) (r_props r)))).
+      assert (R1 : rel0 sid h h1) by (apply rel0_eq; reflexivity).
+      match goal with |- context [fold_sessions h1 ?lv leave_call] => destruct (fold_sessions h1 lv leave_call) as [h2 o1] eqn:H2 end.
+      assert (R2 : rel0 sid h h2).
+      { rewrite (fst_eq _ _ _ H2). eapply rel0_trans; [exact R1|]. apply rel0_fold_sessions. intros hh y. apply rel0_leave_call. }
+      match goal with |- context [fold_sessions h2 ?lv ?f] => destruct (fold_sessions h2 lv f) as [h3 o2] eqn:H3 end.
+      cbn [fst]. rewrite (fst_eq _ _ _ H3). eapply rel0_trans; [exact R2|].
+      apply rel0_fold_sessions. intros hh y. apply rel0_send_session.
+  - cbn [fst]. apply rel0_publish.
+Qed.
+
+Lemma rel0_deliver_pub sid h p : rel0 sid h (fst (deliver_pub h p)).
+Proof.
+  unfold deliver_pub.
+  destruct (p_subj p) as [b r|b r|b u|x|]; destruct (p_msg p) as [m sender co|m|sj internal|pm| |q]; try apply rel0_refl.
+  - apply rel0_fold_sessions. intros hh y. apply rel0_recv_event.
+  - apply rel0_fold_sessions. intros hh y. apply rel0_recv_event.
+  - (* session joined *)
+    destruct (room_of h (b, r)) as [rm|]; [|apply rel0_refl].
+    match goal with |- context [match ?o with [] => _ | _ => _ end] => destruct o end; [apply rel0_refl|]. cbn [fst].
+    match goal with |- rel0 _ _ (fold_left ?f ?l ?h0) => apply (wf_fold_left_hub (fun hh => rel0 sid h hh) f l h0) end.
+    + apply rel0_publish.
+    + intros hh y Hhh. destruct (get_sess hh y) as [sx|]; [|exact Hhh].
+      destruct (is_virtual (s_kind sx) && negb (N.eqb (s_flags sx) 0)); [|exact Hhh].
+      eapply rel0_trans; [exact Hhh|apply rel0_publish].
+  - apply rel0_room_request.
+  - apply rel0_fold_sessions. intros hh y. apply rel0_recv_event.
+  - destruct (get_sess h x) as [s|]; [|apply rel0_refl]. destruct (is_virtual (s_kind s)); [apply rel0_refl|]. apply rel0_recv_event.
+  - destruct (get_sess h x) as [s|]; [|apply rel0_refl]. destruct (is_virtual (s_kind s)); [apply rel0_refl|]. apply rel0_recv_event.
+  - (* permissions *)
+    destruct (get_sess h x) as [s|] eqn:Hs; [|apply rel0_refl]. destruct (is_virtual (s_kind s)); [apply rel0_refl|].
+    eapply rel0_trans; [|apply rel0_revoke]. apply rel0_put with s; [exact Hs|now apply sessA_same].
+  - (* kick through the bus *)
+    destruct (get_sess h x) as [s|]; [|apply rel0_refl]. destruct (is_virtual (s_kind s)); [apply rel0_refl|].
+    destruct (leave_room h x false) as [h1 o1] eqn:H1.
+    destruct (send_session h1 x (SBye B_room_session_reconnected)) as [h2 o2] eqn:H2.
+    destruct (close_session h2 x) as [h3 o3] eqn:H3. cbn [fst].
+    assert (R1 : rel0 sid h h1) by (rewrite (fst_eq _ _ _ H1); apply rel0_leave_room).
+    assert (R2 : rel0 sid h1 h2) by (rewrite (fst_eq _ _ _ H2); apply rel0_send_session).
+    assert (R3 : rel0 sid h2 h3) by (rewrite (fst_eq _ _ _ H3); apply rel0_close_session).
+    eapply rel0_trans; [exact R1|]. eapply rel0_trans; [exact R2|exact R3].
+Qed.
+
+Lemma rel0_deliver_at sid h pos : rel0 sid h (fst (deliver_at h pos)).
+Proof.
+  unfold deliver_at. destruct (take_nth pos (h_bus h)) as [[p rest]|]; [|apply rel0_refl].
+  eapply rel0_trans; [|apply rel0_deliver_pub]. apply rel0_eq; reflexivity.
+Qed.
+
+Lemma rel0_do_api sid h b room q : rel0 sid h (fst (do_api h b room q)).
+Proof.
+  unfold do_api.
+  assert (Hpub : forall hh s m, rel0 sid h hh -> rel0 sid h (publish hh s m)).
+  { intros hh s m R. eapply rel0_trans; [exact R|apply rel0_publish]. }
+  pose proof (rel0_refl sid h) as R0.
+  destruct q as [|users rs|tag|l|l|ic|tag]; cbn [fst]; auto.
+  - match goal with |- rel0 _ _ (fold_left ?f ?l ?h0) => apply (wf_fold_left_hub (fun hh => rel0 sid h hh) f l h0) end.
+    + match goal with |- rel0 _ _ (fold_left ?f ?l ?h0) => apply (wf_fold_left_hub (fun hh => rel0 sid h hh) f l h0) end; auto.
+    + intros hh y Hhh. destruct (aget (h_rs2 hh) (1000000 + y)); auto.
+  - match goal with |- context [match ?o with [] => _ | _ => _ end] => destruct o end; cbn [fst]; auto.
+    apply Hpub. match goal with |- rel0 _ _ (fold_left ?f ?l ?h0) => apply (wf_fold_left_hub (fun hh => rel0 sid h hh) f l h0) end; auto.
+    intros hh [[i icv] pm] Hhh. destruct i; auto. destruct pm; auto.
+  - match goal with |- context [match ?o with [] => _ | _ => _ end] => destruct o end; cbn [fst]; auto.
+Qed.
+
+Lemma rel0_do_tick sid h secs : rel0 sid h (fst (do_tick h secs)).
+Proof.
+  unfold do_tick.
+  match goal with |- context [let '(h1, o1) := ?X in _] => destruct X as [h1 o1] eqn:H1 end.
+  assert (R1 : rel0 sid h h1).
+  { destruct (30 <? secs); [|injection H1 as <- <-; apply rel0_refl].
+    rewrite (fst_eq _ _ _ H1). apply rel0_fold_sessions. intros hh y. apply rel0_close_session. }
+  match goal with |- context [let '(h2, o2) := ?X in _] => destruct X as [h2 o2] eqn:H2 end.
+  assert (R2 : rel0 sid h h2).
+  { destruct (10 <? secs); [|injection H2 as <- <-; exact R1].
+    rewrite (fst_eq _ _ _ H2). eapply rel0_trans; [exact R1|]. apply rel0_fold_sessions. intros hh y.
+    destruct (get_sess hh y) as [s|]; [|apply rel0_refl].
+    match goal with |- context [let '(h3, o3) := ?X in _] => destruct X as [h3 o3] eqn:H3 end.
+    assert (R3 : rel0 sid hh h3).
+    { destruct (s_conn s); [|injection H3 as <- <-; apply rel0_refl]. rewrite (fst_eq _ _ _ H3). apply rel0_send_conn. }
+    destruct (close_session h3 y) as [h4 o4] eqn:H4. cbn [fst]. rewrite (fst_eq _ _ _ H4).
+    eapply rel0_trans; [exact R3|apply rel0_close_session]. }
+  match goal with |- context [let '(h3, o3) := ?X in _] => destruct X as [h3 o3] eqn:H3 end.
+  cbn [fst]. destruct (2 <? secs); [|injection H3 as <- <-; exact R2].
+  rewrite (fst_eq _ _ _ H3). eapply rel0_trans; [exact R2|]. apply rel0_fold_sessions. intros hh y. apply rel0_send_conn.
+Qed.
+
+(* media *)
+Lemma rel0_finish_create sid h tok p ok : rel0 sid h (fst (finish_create h tok p ok)).
+Proof.
+  unfold finish_create.
+  assert (Hsend : forall hh x m, rel0 sid h hh -> rel0 sid h (fst (send_session hh x m))).
+  { intros hh x m E. eapply rel0_trans; [exact E|apply rel0_send_session]. }
+  assert (Hcond : forall hh (b : bool) x m, rel0 sid h hh ->
+            rel0 sid h (fst (if b then send_session hh x m else (hh, [])))).
+  { intros hh b x m E. destruct b; [now apply Hsend|exact E]. }
+  pose proof (rel0_refl sid h) as R0.
+  destruct ok; cbn [negb].
+  2:{ destruct (send_session h (mp_errto p) (SError E_client_not_found)) as [h1 o1] eqn:H1. cbn [fst].
+      rewrite (fst_eq _ _ _ H1). now apply Hsend. }
+  destruct (get_sess h (mp_owner p)) as [s|] eqn:Hs; [|exact R0].
+  destruct (negb (N.eqb (s_rel s) (mp_rel p))).
+  { destruct (send_session h (mp_errto p) (SError E_client_not_found)) as [h1 o1] eqn:H1. cbn [fst].
+    rewrite (fst_eq _ _ _ H1). now apply Hsend. }
+  destruct (N.eqb (mp_kind p) 0 && negb (offer_allowed (s_perms s) (mp_stream p) (N.land (mp_media p) 3))).
+  { destruct (send_session h (mp_errto p) (SError E_not_allowed)) as [h1 o1] eqn:H1. cbn [fst].
+    rewrite (fst_eq _ _ _ H1). now apply Hsend. }
+  destruct (N.eqb (mp_kind p) 0).
+  - destruct (aget (s_pubs s) (mp_stream p)).
+    + match goal with |- context [let '(h1, o1) := ?X in _] => destruct X as [h1 o1] eqn:H1 end. cbn [fst].
+      rewrite (fst_eq _ _ _ H1). now apply Hcond.
+    + match goal with |- context [let '(h3, o3) := ?X in _] => destruct X as [h3 o3] eqn:H3 end. cbn [fst].
+      rewrite (fst_eq _ _ _ H3). apply Hcond.
+      eapply (rel0_aset sid h _ (mp_owner p) s); [reflexivity|reflexivity|exact Hs|now apply sessA_same].
+  - destruct (sub_get s (mp_pubof p) (mp_stream p)).
+    + match goal with |- context [let '(h1, o1) := ?X in _] => destruct X as [h1 o1] eqn:H1 end. cbn [fst].
+      rewrite (fst_eq _ _ _ H1). now apply Hcond.
+    + match goal with |- context [let '(h3, o3) := ?X in _] => destruct X as [h3 o3] eqn:H3 end. cbn [fst].
+      rewrite (fst_eq _ _ _ H3). apply Hcond.
+      eapply (rel0_aset sid h _ (mp_owner p) s); [reflexivity|reflexivity|exact Hs|now apply sessA_same].
+Qed.
+
+Lemma rel0_start_create sid h p : rel0 sid h (fst (start_create h p)).
+Proof.
+  unfold start_create. destruct (h_gated h); [cbn [fst]; apply rel0_eq; reflexivity|].
+  match goal with |- context [let '(h1, o1) := ?X in _] => destruct X as [h1 o1] eqn:H1 end. cbn [fst].
+  rewrite (fst_eq _ _ _ H1). eapply rel0_trans; [|apply rel0_finish_create]. apply rel0_eq; reflexivity.
+Qed.
+
+Lemma rel0_do_mcudone sid h tok ok : rel0 sid h (fst (do_mcudone h tok ok)).
+Proof.
+  unfold do_mcudone. destruct (aget (h_mcupending h) tok) as [p|]; [|apply rel0_refl].
+  eapply rel0_trans; [|apply rel0_finish_create]. apply rel0_eq; reflexivity.
+Qed.
+
+Lemma rel0_do_media sid h c x s to mk stream media :
+  get_sess h x = Some s -> rel0 sid h (fst (do_media h c x s to mk stream media)).
+Proof.
+  intros Hs. unfold do_media. destruct to as [i|u| |]; try apply rel0_refl.
+  destruct (N.eqb mk 0).
+  - destruct (negb (offer_allowed (s_perms s) stream media)); [apply rel0_refl|].
+    destruct (aget (s_pubs s) stream); [|apply rel0_start_create].
+    eapply rel0_trans; [|apply rel0_send_session]. apply rel0_put with s; [exact Hs|now apply sessA_same].
+  - destruct (N.eqb mk 1).
+    + match goal with |- context [if ?c then _ else _] => destruct c end; [apply rel0_refl|].
+      destruct (negb (same_call h x s _)); [apply rel0_refl|].
+      destruct (sub_get s _ stream); [apply rel0_send_session|apply rel0_start_create].
+    + destruct (N.eqb mk 2); [|apply rel0_refl].
+      match goal with |- context [if ?c then _ else _] => destruct c end.
+      * destruct (negb (send_allowed (s_perms s) stream)); [apply rel0_refl|]. destruct (aget (s_pubs s) stream); apply rel0_refl.
+      * destruct (sub_get s _ stream); apply rel0_refl.
+Qed.
+
+Lemma rel0_drain sid fuel : forall h, rel0 sid h (fst (drain fuel h)).
+Proof.
+  induction fuel as [|f IH]; intros h; cbn [drain]; [apply rel0_refl|].
+  destruct (h_bus h); [apply rel0_refl|].
+  destruct (deliver_at h 0) as [h1 o1] eqn:H1. destruct (drain f h1) as [h2 o2] eqn:H2. cbn [fst].
+  assert (R1 : rel0 sid h h1) by (rewrite (fst_eq _ _ _ H1); apply rel0_deliver_at).
+  eapply rel0_trans; [exact R1|]. rewrite (fst_eq _ _ _ H2). apply IH.
+Qed.
